@@ -334,6 +334,7 @@ def obs_compound(rng, big=False):
         # (the member files are not closed by the caller: the codec hands them to save_as_* open,
         # which closes them itself)
         out = RamStorage()
+        ends = []
         how = rng.choice(["compound", "files", "compound-on-disk", "compound-on-disk"])
         if how == "compound-on-disk":
             # a real file read without a memory map, all members open at once and read a piece at a time in turn
@@ -361,6 +362,18 @@ def obs_compound(rng, big=False):
                         got[n] += members[n].read(k)
                         left[n] -= k
                 read = [[n, hx(bytes(got[n]))] for n in listed]
+                # positioning from the end of a member: the bytes before that position and the bytes from it on
+                for n in listed:
+                    ln = cs.file_length(n)
+                    if ln:
+                        k = rng.randrange(1, ln + 1)
+                        m = members[n]
+                        m.seek(-k, 2)
+                        told = m.tell()
+                        tail = m.read()
+                        m.seek(0)
+                        pre = m.read(ln - k)
+                        ends.append([n, int(told), hx(pre), hx(tail)])
                 cs.close()
             finally:
                 shutil.rmtree(d, ignore_errors=True)
@@ -378,7 +391,8 @@ def obs_compound(rng, big=False):
             read = [[n, hx(out.open_file("m_" + n).read())] for n in listed]
             lengths = [[n, out.file_length("m_" + n)] for n in listed]
         return {"kind": "compound", "what": "CompoundWriter buffersize=%d save_as_%s" % (buf, how),
-                "files": [[n, hx(content[n])] for n in sorted(names)], "read": read, "names": listed, "lengths": lengths}
+                "files": [[n, hx(content[n])] for n in sorted(names)], "read": read, "names": listed, "lengths": lengths,
+                "ends": ends}
     return guard(go, "compound")
 
 
